@@ -45,6 +45,38 @@ def _molecule(method, z1, z2, r):
     return mol
 
 
+_PQN = {1: 1, 3: 2, 4: 2, 5: 2, 6: 2, 7: 2, 8: 2, 9: 2, 11: 3, 12: 3, 13: 3, 14: 3, 15: 3, 16: 3, 17: 3}
+
+
+def _multipole_reference(z: int, p, i: int) -> Dict[str, float]:
+    """dd, qq, rho0, rho1, rho2 of atom i from the shipped parameters: D1 = (2n+1)(4 zs zp)^(n+1/2) / (sqrt3 (zs+zp)^(2n+2)), D2 = sqrt((4n^2+6n+2)/20)/zp,
+    rho0 = ev/(2 g_ss), and rho1, rho2 from h_sp = ev/2 [a - (4 D1^2 + a^-2)^-1/2], h_pp = ev [a/4 - (4 D2^2 + a^-2)^-1/2 / 2 + (8 D2^2 + a^-2)^-1/2 / 4] with rho = 1/(2a),
+    h_pp = max((g_pp - g_p2)/2, 0.1 eV) (the floor MOPAC applies)"""
+    from scipy.optimize import brentq
+
+    from seqm.seqm_functions.constants import ev
+    ev = float(ev)
+    gss = float(p["g_ss"][i])
+    out = {"dd": 0.0, "qq": 0.0, "rho0": 0.5 * ev / gss, "rho1": 0.0, "rho2": 0.0}
+    if z == 1 or z not in _PQN:
+        return out
+    n = _PQN[z]
+    zs, zp = float(p["zeta_s"][i]), float(p["zeta_p"][i])
+    hsp, gpp, gp2 = float(p["h_sp"][i]), float(p["g_pp"][i]), float(p["g_p2"][i])
+    dd = (2 * n + 1) * (4 * zs * zp) ** (n + 0.5) / (np.sqrt(3.0) * (zs + zp) ** (2 * n + 2))
+    qq = np.sqrt((4 * n * n + 6 * n + 2) / 20.0) / zp
+    hpp = max(0.5 * (gpp - gp2), 0.1)
+    f1 = lambda a: 0.5 * a - 0.5 / np.sqrt(4 * dd * dd + 1 / a ** 2) - hsp / ev          # noqa: E731
+    f2 = lambda a: 0.25 * a - 0.5 / np.sqrt(4 * qq * qq + 1 / a ** 2) + 0.25 / np.sqrt(8 * qq * qq + 1 / a ** 2) - hpp / ev  # noqa: E731
+    try:
+        ad = brentq(f1, 1e-6, 1e3, xtol=1e-15, rtol=1e-15)
+        aq = brentq(f2, 1e-6, 1e3, xtol=1e-15, rtol=1e-15)
+    except Exception:
+        return out
+    out.update(dd=float(dd), qq=float(qq), rho1=0.5 / ad, rho2=0.5 / aq)
+    return out
+
+
 def element_pairs_case(inp: Dict[str, Any]) -> Dict[str, Any]:
     """record the real local-frame routine on a diatomic; return its inputs/outputs per pair class"""
     import torch
@@ -81,6 +113,8 @@ def element_pairs_case(inp: Dict[str, Any]) -> Dict[str, Any]:
     riHH, riXH, ri = rec["out"][0], rec["out"][1], rec["out"][2]
     res = {"ev": float(ev), "ni": int(ni[0]), "nj": int(nj[0]), "r0": float(r0[0]),
            "args": [float(t[0]) for t in (da, db, qa, qb, r0a, r0b, r1a, r1b, r2a, r2b)]}
+    # independent evaluation of the charge separations and additive terms from the parameter table (published Dewar-Thiel relations, own root finder)
+    res["multipole_ref"] = [_multipole_reference(int(z_), p, i_) for i_, z_ in enumerate((ni[0], nj[0]))]
     if int(ni[0]) > 1 and int(nj[0]) > 1:
         res["cls"], res["ri"] = "XX", ri.reshape(-1).tolist()
     elif int(ni[0]) > 1:
@@ -260,7 +294,11 @@ def oracle_stage(ctx: Ctx):
         sub = sorted({1, 6, 8, 17} | {int(v) for v in rng.choice(els, size=5, replace=False)})
         jobs = [dict(methods=(m,), elements=tuple(sub), distances=(float(rng.choice([0.6, 1.1])), float(rng.choice([2.3, 5.0]))), ndir=1, seed=int(rng.integers(0, 10**6)), triatomics=(m == "AM1"))
                 for m in ("MNDO", "AM1", "PM3")]
-    results = mdh.pmap(_oracle_sweep, jobs, nproc=3, timeout=3000)
+    # diffuse valence shells (Li, Be, Na, Mg, Al) at 11-15 A: far below the overlap cut-off of 40 bohr (21.2 A), resonance integrals still ~1e-2 eV
+    diffuse = (3, 4, 11, 12, 13)
+    jobs.append(dict(methods=("MNDO", "AM1", "PM3") if ctx.thorough else (str(rng.choice(["MNDO", "PM3", "AM1"])),), elements=diffuse, distances=(11.5, 14.5) if ctx.thorough else (float(rng.choice([11.5, 13.0, 14.5])),),
+                     ndir=1, seed=int(rng.integers(0, 10**6)), triatomics=False))
+    results = mdh.pmap(_oracle_sweep, jobs, nproc=4, timeout=3000)
     classes = {}
     for job, res in zip(jobs, results):
         if isinstance(res, Exception) or res is None:
@@ -326,6 +364,15 @@ def run(ctx: Ctx):
                 continue
             ev, r0 = res["ev"], res["r0"]
             da, db, qa, qb, r0a, r0b, r1a, r1b, r2a, r2b = res["args"]
+            mr = res.get("multipole_ref")
+            if mr:
+                got = {"dd": (da, db), "qq": (qa, qb), "rho0": (r0a, r0b), "rho1": (r1a, r1b), "rho2": (r2a, r2b)}
+                worst = max(abs(got[k][j] - mr[j][k]) for k in got for j in (0, 1) if (res["ni"], res["nj"])[j] > 1 or k == "rho0")
+                # (an independent evaluation of the published relations is the property's own reference: a mismatch is a failing input, not a broken tie)
+                ctx.probe_case("multipole_parameters", {"method": c["method"], "Z": [res["ni"], res["nj"]]}, worst <= 1e-7, fields={"kinds": ["multipole_parameters"], "method": c["method"]},
+                               observed=[] if worst <= 1e-7 else [f"{k}: code {got[k][j]:.9f} vs independent {mr[j][k]:.9f} (Z={(res['ni'], res['nj'])[j]})" for k in got for j in (0, 1) if abs(got[k][j] - mr[j][k]) > 1e-7],
+                               expected="dd, qq, rho0, rho1, rho2 as the published Dewar-Thiel relations give them from the shipped parameters", predicate="|code - independent| <= 1e-7 bohr",
+                               stratum=f"{c['method']}/{res['cls']}")
             tol = 2e-13 * ev / r0 * 10
             if res["cls"] == "XX":
                 a1 = [f2b(v) for v in (ev, r0, da, db, qa, qb, r0a, r0b, r1a, r1b, r2a, r2b)]
